@@ -120,7 +120,19 @@ fn main() {
             let index = num("index", 0);
             let mut c = Ctx::new(prop_static, seed, tier, engine, 0, 1, None);
             c.replaying = true;
-            ctx::start_progress_watchdog(prop_static, seed, engine, 0, None, if matches!(engine, Engine::Miri | Engine::Memcheck) { 3600.0 } else { 60.0 }, if prop_static == "C11" { Some(400) } else { None });
+            ctx::start_progress_watchdog(
+                prop_static,
+                seed,
+                engine,
+                0,
+                None,
+                match engine {
+                    Engine::Miri | Engine::Memcheck => 3600.0,
+                    Engine::Asan => 180.0,
+                    _ => 60.0,
+                },
+                if prop_static == "C11" { Some(400) } else { None },
+            );
             c.logger_on = logger;
             println!("replaying {} seed={} tier={:?} engine={} index={}", prop, seed, tier, engine.name(), index);
             c.begin_case(index);
